@@ -214,7 +214,12 @@ class Rewriter(ast.NodeTransformer):
             if isinstance(v, ast.Constant):
                 parts.append(ast.Tuple(elts=[ast.Constant("l"), v], ctx=ast.Load()))
             elif isinstance(v, ast.FormattedValue):
-                spec = self._fstr(v.format_spec) if v.format_spec is not None else ast.Constant("")
+                if v.format_spec is None:
+                    spec = ast.Constant("")
+                elif isinstance(v.format_spec, ast.JoinedStr):
+                    spec = self._fstr(v.format_spec)
+                else:  # already rewritten by generic_visit
+                    spec = v.format_spec
                 parts.append(
                     ast.Tuple(elts=[ast.Constant("v"), v.value, ast.Constant(v.conversion), spec], ctx=ast.Load())
                 )
